@@ -532,6 +532,18 @@ for lf in LEAVES:
             leaf_ops.append(P(sql_.replace(' from t', ' from int.t'), cA))
 fam('leaf_decorations', leaf_ops)
 leaf_pool = leaf_ops
+# trees built by the caller (not obtainable from parse_sql): plain inserts with and without separated parameters
+built_ops = []
+for rd in ('mysql', 'postgresql', 'sqlite', 'mssql', 'oracle'):
+    for nm in ('insert_plain_1', 'insert_plain_2', 'insert_plain_3', 'insert_consts', 'select_built'):
+        for wp in (True, False):
+            o_ = {'k': 'render', 'd': 'mindsdb', 'sql': '<built:%s>' % nm, 'ast': nm, 'rd': rd, 'fb': True}
+            if wp:
+                o_['wp'] = True
+            built_ops.append(o_)
+render_ops.extend(built_ops)
+for rd in ('mysql', 'postgresql', 'sqlite', 'mssql', 'oracle'):
+    fam('render_built_' + rd, [o for o in built_ops if o['rd'] == rd])
 # the two alias names of the renderer's dialect table next to the dialects they map to
 fam('render_aliases', [o for o in render_ops if o['sql'] in RENDER_WP and o['rd'] in ('oracle', 'Snowflake', 'postgres', 'postgresql')])
 for rd in ('mysql', 'postgresql', 'sqlite', 'mssql', 'oracle'):
@@ -567,7 +579,7 @@ def _chain(n, op_):
 
 
 DEEP = []
-for n_ in (40, 90, 300, 600):
+for n_ in (40, 90, 260):
     DEEP.append("select * from int.tab1 t1 join int2.tab2 t2 on t1.a = t2.a where " + _chain(n_, 'or'))
     DEEP.append("select t1.a, m.p from int.tab1 t1 join mindsdb.pred m where " + _chain(n_, 'and'))
     DEEP.append("select * from int.tab1 t1 where " + _chain(n_, 'and'))
@@ -674,6 +686,15 @@ for i, (k, lst) in enumerate(sorted(by_meta.items())):
         fam('meta_%02d' % i, lst)
 
 probes = [
+    {'k': 'parse', 'd': 'mindsdb', 'sql': "select `select`, `from`, t.`where` from `table` as `order`"},
+    {'k': 'parse', 'd': 'mysql', 'sql': "select `select`, `limit` from `group`"},
+    {'k': 'parse', 'd': 'mindsdb', 'sql': "select null as n, true, (false) from t"},
+    {'k': 'parse', 'd': 'mindsdb', 'sql': "select a from t union foo select b from u"},
+    {'k': 'render', 'd': 'mindsdb', 'sql': "select cast(a as float), 1, 1.0, true from t1", 'rd': 'mysql', 'fb': True},
+    {'k': 'render', 'd': 'mindsdb', 'sql': "insert into t (a, b) values (1, 'x'), (2, 'y')", 'rd': 'mssql', 'fb': True},
+    {'k': 'render', 'd': 'mindsdb', 'sql': "insert into t (a, b) values (1, 'x'), (2, 'y')", 'rd': 'oracle', 'fb': True},
+    {'k': 'render', 'd': 'mindsdb', 'sql': "select count(a), count(b) from t", 'rd': 'postgresql', 'fb': True},
+    {'k': 'render', 'd': 'mindsdb', 'sql': "create table files.events (id int, b text)", 'rd': 'postgresql', 'fb': True},
     {'k': 'parse', 'd': 'mindsdb', 'sql': "select a, b from t where a = 1 order by b"},
     {'k': 'parse', 'd': 'mysql', 'sql': "select a, b from t where a = 1 order by b"},
     {'k': 'parse', 'd': 'sqlite', 'sql': "select a, b from t where a = 1 order by b"},
